@@ -35,6 +35,15 @@ var memberSeeds = []memberSeed{
 		[]string{"demote:2", "remove:3"}},
 }
 
+func memberSeedByName(name string) memberSeed {
+	for _, s := range memberSeeds {
+		if s.name == name {
+			return s
+		}
+	}
+	panic("unknown membership seed " + name)
+}
+
 func scenMember(seed memberSeed, dev int, maxAdmin int, promoteNs int64, orderCost bool, oracles []string, updates int) *simScenario {
 	name := "member-" + seed.name
 	if promoteNs == 1 {
